@@ -10,7 +10,8 @@ EXTENDS Store
 CONSTANTS Family,       \* "unfold" | "findlist" | "match"
           MaxEdits,
           WithGt,       \* TRUE: the '>' edit is part of the family
-          UnivKinds     \* which kinds of universes the list searches run against
+          UnivKinds,    \* which kinds of universes the list searches run against
+          GtFirst       \* TRUE: the first edit is a '>' (the family of C09 on real finders)
 VARIABLES call, edits
 vars == <<call, edits>>
 
@@ -30,7 +31,9 @@ CommaAt == \E i \in 2..N : Untouched(i) /\
               \/ SetSeg(i, <<Sr.segs[i][1], NthConcrete(BasePh(i), 2)>>)
               \/ SetSeg(i, <<Sr.segs[i][1], "zz">>)
               \/ SetSeg(i, <<NthConcrete(BasePh(i), 3), "*">>)
-GlobAt == \E i \in 2..N : Untouched(i) /\ Raw.accept[BasePh(i)].any /\ SetSeg(i, <<"o*">>)
+\* in-segment stars on unrestricted keys, including stars that have to match the EMPTY run (value*, *value)
+GlobAt == \E i \in 2..N : Untouched(i) /\ Raw.accept[BasePh(i)].any /\
+             (SetSeg(i, <<"o*">>) \/ SetSeg(i, <<Sr.segs[i][1] \o "*">>) \/ SetSeg(i, <<"*" \o Sr.segs[i][1]>>) \/ SetSeg(i, <<"oph*">>))
 AliasLast == Untouched(N) /\ N = Len(Templates[call.t].ph) /\ IsLeafT(call.t) /\ \E a \in AliasNames : SetSeg(N, <<a>>)
 \* collapse the span a..b (2 <= a <= b <= N) into one '**'
 Collapse == call.span = 0 /\ \E a \in 2..N : \E b \in a..N :
@@ -96,7 +99,7 @@ DeriveLiteral == call.span = 0 /\ \E i \in 2..N : Sr.segs[i] = <<"*">> /\ i <= L
                     Alg("literal", <<Sr, [Sr EXCEPT !.segs[i] = <<v>>]>>, <<i, v>>)
 Derive == Family = "algebra" /\ call.op # "algebra" /\
           (DeriveComma \/ DeriveCommaQ \/ DeriveAlias \/ DeriveAliasQ \/ DeriveStarStar \/ DeriveFilter \/ DeriveLiteral)
-Next == \/ call.op # "algebra" /\ edits < MaxEdits /\ Edit /\ edits' = edits + 1
+Next == \/ call.op # "algebra" /\ edits < MaxEdits /\ (IF GtFirst /\ edits = 0 THEN GtAt ELSE Edit) /\ edits' = edits + 1
         \/ Derive /\ UNCHANGED edits
 Spec == Init /\ [][Next]_vars
 
